@@ -57,6 +57,9 @@ pub(crate) fn extract_variable(
     // and is block level, so we can insert our variable before
     // this expression.
     let mut enclosing_block_level_expr: Option<Expression> = None;
+    // Is the enclosing block-level expression the body of a match
+    // case written without braces, e.g. `Some(x) => x + 1`?
+    let mut in_braceless_case = false;
     'outer: for id in ids_containing_pos.iter().rev() {
         let AstId::Expr(expr_syntax_id) = id else {
             continue;
@@ -85,6 +88,13 @@ pub(crate) fn extract_variable(
             Expression_::Match(_, cases) => {
                 for (_, block) in cases {
                     if block_contains_id(block, *expr_id) {
+                        // The parser gives a case without braces a
+                        // block whose braces are the position of
+                        // its expression.
+                        if let Some(first_expr) = block.exprs.first() {
+                            in_braceless_case = block.open_brace.start_offset
+                                == first_expr.position.start_offset;
+                        }
                         break 'outer;
                     }
                 }
@@ -135,18 +145,33 @@ pub(crate) fn extract_variable(
             result.push_str(
                 &src[item_pos.start_offset..enclosing_block_level_expr.position.start_offset],
             );
+
+            // A case without braces can only hold one expression,
+            // so we need to add braces to make room for the `let`.
+            let (open_brace, close_brace) = if in_braceless_case {
+                ("{ ", " }")
+            } else {
+                ("", "")
+            };
+
+            result.push_str(open_brace);
             result.push_str(&format!(
                 "let {} = {}\n{}",
                 name,
                 &src[var_init_expr.position.start_offset..var_init_expr.position.end_offset],
-                " ".repeat(enclosing_block_level_expr.position.column)
+                " ".repeat(enclosing_block_level_expr.position.column + open_brace.len())
             ));
 
             result.push_str(
                 &src[enclosing_block_level_expr.position.start_offset..expr.position.start_offset],
             );
             result.push_str(name);
-            result.push_str(&src[expr.position.end_offset..item_pos.end_offset]);
+            result.push_str(
+                &src[expr.position.end_offset..enclosing_block_level_expr.position.end_offset],
+            );
+            result.push_str(close_brace);
+            result
+                .push_str(&src[enclosing_block_level_expr.position.end_offset..item_pos.end_offset]);
 
             // Items after.
             result.push_str(&src[item_pos.end_offset..]);
